@@ -597,19 +597,21 @@ theorem interleaved_implicit_counterexample :
 /-! ## single-operand fast paths -/
 
 /-- **single_operand_paths_sound** — for a single operand with a duplicate-free output drawn from
-    its labels, whichever of the three paths of `_build_expression` is taken (return the array,
-    transpose it by `tuple(map(term.index, output))`, or call einsum) yields the single-operand
-    einsum. -/
+    its labels, every *admissible* path (`pathOK`: return the array only when `term = output`;
+    transpose only with equally many labels and by `tuple(map(term.index, output))`; or call
+    einsum) yields the single-operand einsum.  The harness runs `pathOK` on the path the real
+    `_build_expression` took. -/
 theorem single_operand_paths_sound (sz : Nat → Nat) (hpos : ∀ i, 0 < sz i) (term out : List Nat)
-    (hout : out.Nodup) (hsub : ∀ o ∈ out, o ∈ term) (x : FArr) (hsh : x.shape = term.map sz) :
-    ∃ y, evalSinglePath term out x = some y ∧ y.shape = (einsum1 term out x).shape ∧
+    (hout : out.Nodup) (hsub : ∀ o ∈ out, o ∈ term) (x : FArr) (hsh : x.shape = term.map sz)
+    (p : SinglePath) (hp : pathOK term out p = true) :
+    ∃ y, evalPath term out p x = some y ∧ y.shape = (einsum1 term out x).shape ∧
       ∀ idx, inRange idx y.shape = true → y.get idx = (einsum1 term out x).get idx := by
   have hx : Lab sz term x (fun e => x.get (term.map e)) := lab_iff.2 ⟨hsh, fun _ _ => rfl⟩
   have he := lab_einsum1 (sz := sz) (d := out) hsh hsub
-  unfold evalSinglePath singlePath
-  by_cases h1 : term = out
-  · subst h1
-    simp only [↓reduceIte]
+  cases p with
+  | identity =>
+    have h1 : term = out := by simpa [pathOK] using hp
+    subst h1
     refine ⟨x, rfl, ?_, ?_⟩
     · rw [rep_shape_single hx, rep_shape_single he]
     · intro idx hidx
@@ -622,27 +624,35 @@ theorem single_operand_paths_sound (sz : Nat → Nat) (hpos : ∀ i, 0 < sz i) (
           simp [ha]
         rw [this]; rfl
       rw [this, sumEnv_nil]
-  · simp only [h1, ↓reduceIte]
-    by_cases h2 : term.length = out.length
-    · simp only [h2, ↓reduceIte]
-      have hperm : out.Perm term := (hout.subperm hsub).perm_of_length_le (by omega)
-      have htn : term.Nodup := hperm.nodup_iff.1 hout
-      have hto : ∀ i ∈ term, i ∈ out := fun i hi => hperm.mem_iff.2 hi
-      obtain ⟨y, hy1, hy2⟩ := lab_transpose hx htn hout hsub hto
-      refine ⟨y, hy1, ?_, ?_⟩
-      · rw [rep_shape_single hy2, rep_shape_single he]
-      · intro idx hidx
-        rw [rep_shape_single hy2] at hidx
-        rw [rep_read hy2 hpos hout hidx, rep_read he hpos hout hidx]
-        have : uniq (term.filter fun i => !out.contains i) = [] := by
-          have : (term.filter fun i => !out.contains i) = [] := by
-            apply List.filter_eq_nil_iff.2
-            intro a ha
-            simp [hto a ha]
-          rw [this]; rfl
-        rw [this, sumEnv_nil]
-    · simp only [h2, ↓reduceIte]
-      exact ⟨_, rfl, rfl, fun _ _ => rfl⟩
+  | transpose q =>
+    simp only [pathOK, Bool.and_eq_true, beq_iff_eq] at hp
+    obtain ⟨h2, rfl⟩ := hp
+    have hperm : out.Perm term := (hout.subperm hsub).perm_of_length_le (by omega)
+    have htn : term.Nodup := hperm.nodup_iff.1 hout
+    have hto : ∀ i ∈ term, i ∈ out := fun i hi => hperm.mem_iff.2 hi
+    obtain ⟨y, hy1, hy2⟩ := lab_transpose hx htn hout hsub hto
+    refine ⟨y, hy1, ?_, ?_⟩
+    · rw [rep_shape_single hy2, rep_shape_single he]
+    · intro idx hidx
+      rw [rep_shape_single hy2] at hidx
+      rw [rep_read hy2 hpos hout hidx, rep_read he hpos hout hidx]
+      have : uniq (term.filter fun i => !out.contains i) = [] := by
+        have : (term.filter fun i => !out.contains i) = [] := by
+          apply List.filter_eq_nil_iff.2
+          intro a ha
+          simp [hto a ha]
+        rw [this]; rfl
+      rw [this, sumEnv_nil]
+  | einsum => exact ⟨_, rfl, rfl, fun _ _ => rfl⟩
+
+/-- the path the model of `_build_expression` takes is admissible -/
+theorem singlePath_ok (term out : List Nat) : pathOK term out (singlePath term out) = true := by
+  unfold singlePath
+  by_cases h1 : term = out
+  · simp [h1, pathOK]
+  · by_cases h2 : term.length = out.length
+    · simp [h1, h2, pathOK]
+    · simp [h1, h2, pathOK]
 
 example : singlePath [0, 1, 2] [2, 0, 1] = .transpose [2, 0, 1] := by decide
 example : singlePath [0, 0, 1] [1, 0] = .einsum := by decide
